@@ -5,9 +5,21 @@
 //   tab n x(n) y(n)        -> ok d(n) | fail:size | fail:unordered | fail:pivot
 //   tabd n x(n) y(n) d(n)  -> ok
 //   lin e a | lind e a | spl e a | spld e a | gv a | gv2 a | gv3 a | int a b | mean a b
+// Variants (`op:variant`, same answers expected as for the plain op):
+//   tab:it / tab:dq        the iterator overload setCollocationPoints(px, pxe, py) called directly with raw
+//                          pointers / std::deque iterators (the plain `tab` uses the container overload)
+//   lin:i lind:i spl:i spld:i   the query abscissa is passed as an `int`, `:f` as a `float` (the functions are
+//                          templates of the type of the query point; the data is such that the conversion is exact)
+//   spl:agg spld:agg       evaluation on a std::deque of collocation points built by aggregate initialisation
+//                          `{x, y, d}` (as the documentation and the upstream tests build them)
+//   tabm nx ny x(nx) y(ny) container overload with vectors of different sizes
+//                          -> fail:size | fail:ordinate | fail:inputs
+//   uninit                 the six accessors on a CubicSpline without collocation points -> 6 x `uninit`
+// One CubicSpline object is REUSED for all `tab` lines (setCollocationPoints must forget the previous table).
 #include <cmath>
 #include <cstdint>
 #include <cstring>
+#include <deque>
 #include <iostream>
 #include <sstream>
 #include <string>
@@ -61,11 +73,92 @@ struct Spline : public CubicSpline<double, double> {
   }
 };
 
+using Point = CubicSplineCollocationPoint<double, double>;
+
 struct State {
   std::vector<double> x, y;
-  Spline s;
+  Spline s;  // never re-created: every table is installed in the same object
   bool has_spline = false;
 };
+
+// what an accessor does on a spline without collocation points
+template <typename F>
+static std::string probe(F&& f) {
+  try {
+    f();
+  } catch (CubicSplineUninitialised&) {
+    return "uninit";
+  } catch (std::exception&) {
+    return "other";
+  }
+  return "value";
+}
+
+static std::string build_answer(State& st, const std::string& variant) {
+  try {
+    if (variant == "it") {
+      st.s.setCollocationPoints(st.x.data(), st.x.data() + st.x.size(), st.y.data());
+    } else if (variant == "dq") {
+      const std::deque<double> dx(st.x.begin(), st.x.end());
+      const std::deque<double> dy(st.y.begin(), st.y.end());
+      st.s.setCollocationPoints(dx.begin(), dx.end(), dy.begin());
+    } else {
+      st.s.setCollocationPoints(st.x, st.y);
+    }
+  } catch (CubicSplineInvalidAbscissaVectorSize&) {
+    return "fail:size";
+  } catch (CubicSplineInvalidOrdinateVectorSize&) {
+    return "fail:ordinate";
+  } catch (CubicSplineInvalidInputs&) {
+    return "fail:inputs";
+  } catch (CubicSplineUnorderedAbscissaVector&) {
+    return "fail:unordered";
+  } catch (CubicSplineNullPivot&) {
+    return "fail:pivot";
+  } catch (std::exception&) {
+    return "fail:other";
+  }
+  st.has_spline = true;
+  std::ostringstream os;
+  os << "ok";
+  for (const auto& p : st.s.getCollocationPoints()) os << " " << show_hex(p.d);
+  return os.str();
+}
+
+// the four free interpolation functions with a query point of type T
+template <typename T>
+static std::string free_query(State& st, const std::string& op, const bool e, const T a, const bool agg) {
+  const auto pair = [](const double u, const double v) { return show_hex(u) + " " + show_hex(v); };
+  if (op == "lin") {
+    return show_hex(e ? computeLinearInterpolation<true>(st.x, st.y, a)
+                      : computeLinearInterpolation<false>(st.x, st.y, a));
+  }
+  if (op == "lind") {
+    const auto r = e ? computeLinearInterpolationAndDerivative<true>(st.x, st.y, a)
+                     : computeLinearInterpolationAndDerivative<false>(st.x, st.y, a);
+    return pair(r.first, r.second);
+  }
+  if (!st.has_spline) return "nospline";
+  const auto& pts = st.s.getCollocationPoints();
+  if (agg) {
+    std::deque<Point> q;
+    for (const auto& p : pts) q.push_back(Point{p.x, p.y, p.d});
+    if (op == "spl") {
+      return show_hex(e ? computeCubicSplineInterpolation<true>(q, a)
+                        : computeCubicSplineInterpolation<false>(q, a));
+    }
+    const auto r = e ? computeCubicSplineInterpolationAndDerivative<true>(q, a)
+                     : computeCubicSplineInterpolationAndDerivative<false>(q, a);
+    return pair(r.first, r.second);
+  }
+  if (op == "spl") {
+    return show_hex(e ? computeCubicSplineInterpolation<true>(pts, a)
+                      : computeCubicSplineInterpolation<false>(pts, a));
+  }
+  const auto r = e ? computeCubicSplineInterpolationAndDerivative<true>(pts, a)
+                   : computeCubicSplineInterpolationAndDerivative<false>(pts, a);
+  return pair(r.first, r.second);
+}
 
 static bool read_flag(const std::string& t, bool& e) {
   if (t == "1") {
@@ -83,10 +176,53 @@ static std::string answer(State& st, const std::string& line) {
   std::istringstream is(line);
   std::string op;
   if (!(is >> op)) return "bad-op";
+  std::string variant;
+  if (const auto c = op.find(':'); c != std::string::npos) {
+    variant = op.substr(c + 1);
+    op = op.substr(0, c);
+  }
   std::vector<std::string> tok;
   for (std::string t; is >> t;) tok.push_back(t);
+  if (op == "uninit") {
+    if (!tok.empty() || !variant.empty()) return "bad-op";
+    const CubicSpline<double, double> e{};
+    double f = 0, df = 0, d2f = 0;
+    std::string r = probe([&] { f = e.getValue(0.5); });
+    r += " " + probe([&] { f = e(0.5); });
+    r += " " + probe([&] { e.getValues(f, df, 0.5); });
+    r += " " + probe([&] { e.getValues(f, df, d2f, 0.5); });
+    r += " " + probe([&] { f = e.computeIntegral(0., 1.); });
+    r += " " + probe([&] { f = e.computeMeanValue(0., 1.); });
+    return r;
+  }
+  if (op == "tabm") {
+    if (tok.size() < 2 || !variant.empty()) return "bad-op";
+    std::size_t nx = 0, ny = 0;
+    try {
+      nx = std::stoul(tok[0]);
+      ny = std::stoul(tok[1]);
+    } catch (...) {
+      return "bad-op";
+    }
+    if (nx == ny || tok.size() != 2 + nx + ny) return "bad-op";
+    std::vector<double> v(nx + ny);
+    for (std::size_t i = 0; i != nx + ny; ++i)
+      if (!parse_hex(tok[2 + i], v[i])) return "bad-op";
+    // exactly-sized heap blocks, so that a read past the shorter vector is seen by the sanitizer
+    st.x = std::vector<double>(v.begin(), v.begin() + nx);
+    st.y = std::vector<double>(v.begin() + nx, v.end());
+    st.x.shrink_to_fit();
+    st.y.shrink_to_fit();
+    st.has_spline = false;
+    const auto r = build_answer(st, "");
+    st.has_spline = false;
+    st.x.clear();
+    st.y.clear();
+    return r;
+  }
   if (op == "tab" || op == "tabd") {
     if (tok.empty()) return "bad-op";
+    if (!(variant.empty() || (op == "tab" && (variant == "it" || variant == "dq")))) return "bad-op";
     std::size_t n = 0;
     try {
       n = std::stoul(tok[0]);
@@ -107,23 +243,7 @@ static std::string answer(State& st, const std::string& line) {
       st.has_spline = true;
       return "ok";
     }
-    st.s = Spline();
-    try {
-      st.s.setCollocationPoints(st.x, st.y);
-    } catch (CubicSplineInvalidAbscissaVectorSize&) {
-      return "fail:size";
-    } catch (CubicSplineUnorderedAbscissaVector&) {
-      return "fail:unordered";
-    } catch (CubicSplineNullPivot&) {
-      return "fail:pivot";
-    } catch (std::exception&) {
-      return "fail:other";
-    }
-    st.has_spline = true;
-    std::ostringstream os;
-    os << "ok";
-    for (const auto& p : st.s.getCollocationPoints()) os << " " << show_hex(p.d);
-    return os.str();
+    return build_answer(st, variant);
   }
   const auto pair = [](const double a, const double b) {
     return show_hex(a) + " " + show_hex(b);
@@ -140,25 +260,23 @@ static std::string answer(State& st, const std::string& line) {
     double a;
     if (tok.size() != 2 || !read_flag(tok[0], e) || !parse_hex(tok[1], a)) return "bad-op";
     if (st.x.empty()) return "bad-op";
-    if (op == "lin") {
-      return show_hex(e ? computeLinearInterpolation<true>(st.x, st.y, a)
-                        : computeLinearInterpolation<false>(st.x, st.y, a));
+    if (variant == "i") {
+      // the conversion must be exact: the model is queried with the same double
+      if (!(std::fabs(a) < 2147483000.) || static_cast<double>(static_cast<int>(a)) != a) return "bad-op";
+      return free_query<int>(st, op, e, static_cast<int>(a), false);
     }
-    if (op == "lind") {
-      const auto r = e ? computeLinearInterpolationAndDerivative<true>(st.x, st.y, a)
-                       : computeLinearInterpolationAndDerivative<false>(st.x, st.y, a);
-      return pair(r.first, r.second);
+    if (variant == "f") {
+      if (static_cast<double>(static_cast<float>(a)) != a) return "bad-op";
+      return free_query<float>(st, op, e, static_cast<float>(a), false);
     }
-    if (!st.has_spline) return "nospline";
-    const auto& pts = st.s.getCollocationPoints();
-    if (op == "spl") {
-      return show_hex(e ? computeCubicSplineInterpolation<true>(pts, a)
-                        : computeCubicSplineInterpolation<false>(pts, a));
+    if (variant == "agg") {
+      if (op != "spl" && op != "spld") return "bad-op";
+      return free_query<double>(st, op, e, a, true);
     }
-    const auto r = e ? computeCubicSplineInterpolationAndDerivative<true>(pts, a)
-                     : computeCubicSplineInterpolationAndDerivative<false>(pts, a);
-    return pair(r.first, r.second);
+    if (!variant.empty()) return "bad-op";
+    return free_query<double>(st, op, e, a, false);
   }
+  if (!variant.empty()) return "bad-op";
   if (op == "gv" || op == "gv2" || op == "gv3") {
     double a;
     if (tok.size() != 1 || !parse_hex(tok[0], a)) return "bad-op";
